@@ -36,8 +36,19 @@ struct FdJanitor {
 
 template<typename K, typename Index>
 bool mapped_queries(CaseResult &res, const Index &idx, const std::vector<K> &keys, const std::vector<K> &queries, const char *who,
-                    uint64_t &nq, bool &long_run_hit, bool &outside_hit, size_t eps) {
+                    uint64_t &nq, bool &long_run_hit, bool &outside_hit, size_t eps, bool mem = false) {
     const size_t n = keys.size();
+    if (mem) { // C17: only AddressSanitizer judges; every operation is still executed and its result consumed
+        volatile size_t sink = idx.size() + size_t(idx.end() - idx.begin());
+        for (const K &q: queries) {
+            ++nq;
+            sink = sink + size_t(idx.lower_bound(q) - idx.begin()) + size_t(idx.upper_bound(q) - idx.begin()) + idx.count(q) + idx.contains(q);
+            if (q > keys.back() || q < keys.front()) outside_hit = true;
+        }
+        for (auto it = idx.begin(); it != idx.end(); ++it) sink = sink + size_t(*it);
+        (void) sink;
+        return true;
+    }
     if (idx.size() != n) {
         res.fail(std::string(who) + ": size() = " + std::to_string(idx.size()) + ", expected " + std::to_string(n));
         return false;
@@ -146,7 +157,7 @@ CaseResult run_mapped(const RunCtx &ctx, TapeReader &t, unsigned size_hint) {
             std::unique_ptr<Index> idx;
             if (use_raw) idx.reset(new Index(fraw, fa)), res.label("built_from_raw_file");
             else idx.reset(new Index(keys.begin(), keys.end(), fa)), res.label("built_from_range");
-            if (!mapped_queries<K>(res, *idx, keys, queries, use_raw ? "raw-file-built" : "range-built", nq, long_run, outside, Eps)) {}
+            if (!mapped_queries<K>(res, *idx, keys, queries, use_raw ? "raw-file-built" : "range-built", nq, long_run, outside, Eps, mem)) {}
             res.nontrivial = long_run && outside;
             if (mem) res.nontrivial = n <= 3 || meta.starts_lowest || meta.top_reached || outside;
             if (long_run) res.label("nt_run_longer_than_range");
@@ -161,13 +172,13 @@ CaseResult run_mapped(const RunCtx &ctx, TapeReader &t, unsigned size_hint) {
                     alive.emplace_back(new Index(keys.begin(), keys.end(), fa));
                     have_a = true;
                     bytes_a = slurp(fa);
-                    mapped_queries<K>(res, *alive.back(), keys, queries, "range-built", nq, long_run, outside, Eps);
+                    mapped_queries<K>(res, *alive.back(), keys, queries, "range-built", nq, long_run, outside, Eps, mem);
                 }
                 if (!a && !have_b) {
                     alive.emplace_back(new Index(fraw, fb));
                     have_b = true;
                     bytes_b = slurp(fb);
-                    mapped_queries<K>(res, *alive.back(), keys, queries, "raw-file-built", nq, long_run, outside, Eps);
+                    mapped_queries<K>(res, *alive.back(), keys, queries, "raw-file-built", nq, long_run, outside, Eps, mem);
                 }
             };
             for (int op: script) {
@@ -188,17 +199,17 @@ CaseResult run_mapped(const RunCtx &ctx, TapeReader &t, unsigned size_hint) {
                         reopened = true;
                         last_reopened = f;
                         std::string after = slurp(f);
-                        if (after != before) {
+                        if (!mem && after != before) {
                             res.fail("reopening altered the file " + f + " (size " + std::to_string(before.size()) + " -> " + std::to_string(after.size()) + ")");
                             break;
                         }
                         mapped_queries<K>(res, *alive.back(), keys, queries, f == fa ? "reopened(range-built file)" : "reopened(raw-built file)", nq,
-                                          long_run, outside, Eps);
+                                          long_run, outside, Eps, mem);
                         break;
                     }
                 }
             }
-            if (res.ok && have_a && have_b) {
+            if (res.ok && have_a && have_b && !mem) {
                 if (bytes_a != bytes_b) {
                     size_t d = 0;
                     while (d < bytes_a.size() && d < bytes_b.size() && bytes_a[d] == bytes_b[d]) ++d;
@@ -206,7 +217,7 @@ CaseResult run_mapped(const RunCtx &ctx, TapeReader &t, unsigned size_hint) {
                              std::to_string(bytes_b.size()) + ", first difference at byte " + std::to_string(d) + ")");
                 }
             }
-            if (res.ok && (have_a || have_b)) {
+            if (res.ok && (have_a || have_b) && !mem) {
                 // expected layout: header_bytes | n | first_key | levels_offsets | segments | keys
                 const std::string &b = have_a ? bytes_a : bytes_b;
                 if (b.size() < 2 * sizeof(size_t) + sizeof(K) + n * sizeof(K)) res.fail("file shorter than header + keys");
